@@ -194,8 +194,22 @@ Fixpoint split_plus_aux (l cur : bytes) : list bytes :=
   | b :: r => if bZ b =? 43 then rev cur :: split_plus_aux r [] else split_plus_aux r (b :: cur)
   end.
 Definition key_parts (k : str) : list str := split_plus_aux k [].
-(* cbc.Key.Has *)
+(* cbc.Key.Has: some `+`-separated part is ke *)
 Definition key_has (k ke : str) : bool := memb ke (key_parts k).
+(* strings.SplitN(k, "+", 2): cut at the first `+` only *)
+Fixpoint split_plus_2_aux (l cur : bytes) : list bytes :=
+  match l with
+  | [] => [rev cur]
+  | b :: r => if bZ b =? 43 then [rev cur; r] else split_plus_2_aux r (b :: cur)
+  end.
+(* cbc.Key.HasPrefix: ks := strings.SplitN(k, "+", 2); ks[0] == ke *)
+Definition key_has_prefix (k ke : str) : bool :=
+  match split_plus_2_aux k [] with
+  | p :: _ => eqb_bytes p ke
+  | [] => false
+  end.
+(* the first `+`-separated component of a key (the whole key when it has no `+`) *)
+Definition key_first (k : str) : str := hd [] (key_parts k).
 
 (* RegimeDefCollection: registered under the country code and under every alternative code *)
 Definition regime_has_code (r : regime) (c : str) : bool :=
@@ -247,16 +261,21 @@ Definition in_categories (r : option regime) (cat : str) : bool :=
   end.
 
 (* RegimeDef.InCategoryRates + inCategoryRatesRule: blank without regime or category, otherwise
-   some rate key of the category is one of the `+`-separated parts of the key *)
-Definition in_category_rates (r : option regime) (cat rate : str) : bool :=
+   some rate key of the category matches the key by [has]. After the repair "a rate key is only
+   accepted when its first component is a rate of the category" the test is key.HasPrefix(k): the
+   rate key is the FIRST `+`-separated component of the key *)
+Definition in_category_rates_with (has : str -> str -> bool) (r : option regime) (cat rate : str) : bool :=
   match r with
   | None => is_empty rate
   | Some r =>
     match category_for r cat with
     | None => is_empty rate
-    | Some c => is_empty rate || existsb (fun rt => key_has rate (rt_key rt)) (cat_rates c)
+    | Some c => is_empty rate || existsb (fun rt => has rate (rt_key rt)) (cat_rates c)
     end
   end.
+Definition in_category_rates := in_category_rates_with key_has_prefix.
+(* the rule as shipped before that repair: key.Has(k), ANY component (kept for the `_refuted` theorem) *)
+Definition in_category_rates_any_part := in_category_rates_with key_has.
 
 (* Extensions.Validate, one entry: the key is registered; when the definition lists values the
    code is one of them; when it declares a pattern the value matches it *)
@@ -373,10 +392,10 @@ Definition resolves (d : defs) (rf : ref) : Prop :=
      that applies there is nothing it could belong to (the library leaves such combos alone) *)
   | RefCategory c cat =>
       (~ exists r, RegimeOf d c r) \/ (exists r, RegimeOf d c r /\ In cat (map cat_code (rg_categories r)))
-  (* the rate key - one of its `+`-separated parts - is a rate of that category of that regime *)
+  (* the rate key - its FIRST `+`-separated component - is a rate of that category of that regime *)
   | RefRate c cat rate =>
       exists r ca rt, RegimeOf d c r /\ In ca (rg_categories r) /\ cat_code ca = cat /\
-                      In rt (cat_rates ca) /\ In (rt_key rt) (key_parts rate)
+                      In rt (cat_rates ca) /\ key_first rate = rt_key rt
   (* the key is defined; the value is one of the allowed codes (when codes are listed) and matches
      the declared pattern (when one is declared) *)
   | RefExt k v =>
